@@ -277,4 +277,79 @@ def updateCmd (E : Asm.Engine) (cfg : Asm.Config) (o1 o2 : Parser.Ord) (t : Tree
 /-- commands that only inspect: generate, compare, version, completion, and every `--check` (by the definitions above) -/
 def inspect (t : Tree) : Tree := t
 
+/-! ### an invocation: what the command line says, after the flag parser -/
+
+/-- the commands whose wiring is modelled -/
+inductive Command where
+  | generate | update | compare | format | renumber | copyright
+  deriving DecidableEq
+
+/-- what cobra hands to the command: the value of `-o` or `--output` (if given), the positional arguments, which flags
+    were given. (`-d`, `-l`, `-f` are outside: the tree IS the resolved root, the log is not an output.) -/
+structure Invocation where
+  output : Option Bytes := none
+  cmd : Command
+  args : List Bytes := []
+  all : Bool := false
+  check : Bool := false
+  version : Option Bytes := none
+  year : Bytes := []
+
+/-- result of an invocation: exit status 0?, the tree, and what `generate` printed -/
+structure RunResult where
+  ok : Bool
+  tree : Tree
+  stdout : Bytes := []
+
+/-- `RULE_ID | --all`: exactly one of the two, at most one argument (the `Args` validators of cmd/*.go) -/
+def oneTarget (inv : Invocation) : Bool :=
+  (inv.all && inv.args.isEmpty) || (!inv.all && inv.args.length == 1)
+
+/-- `crs-toolchain [-o O] COMMAND …` on the tree of the resolved root. `lint`: verdict of the upper-case lint per file
+    (an input); `versionOk`: verdict of the semantic-version library on the `-v` value (an input).
+    `none`: a form of the command this model does not cover (single-file format / renumber, `generate -`). -/
+def run (E : Asm.Engine) (cfg : Asm.Config) (o1 o2 : Parser.Ord) (lint : Bytes → Bool) (versionOk : Bool)
+    (inv : Invocation) (t : Tree) : Option RunResult :=
+  let fail : RunResult := ⟨false, t, []⟩
+  -- the output option is read before anything else: an unknown value ends the run
+  match inv.output with
+  | some v => if v == b!"text" || v == b!"github" then go (v == b!"github") else some fail
+  | none => go false
+where
+  go (github : Bool) : Option RunResult :=
+    let fail : RunResult := ⟨false, t, []⟩
+    match inv.cmd with
+    | .generate =>
+      match inv.args with
+      | [arg] => if arg == b!"-" then none else
+          let r := generateCmd E cfg o1 o2 t arg
+          some ⟨r.ok, r.tree, r.stdout⟩
+      | _ => some fail
+    | .update =>
+      if !oneTarget inv then some fail
+      else if inv.all then let r := updateAll E cfg o1 o2 {} t t; some ⟨r.ok, r.tree, []⟩
+      else match inv.args with
+        | [arg] => let r := updateCmd E cfg o1 o2 t arg; some ⟨r.ok, r.tree, []⟩
+        | _ => some fail
+    | .compare =>
+      if !oneTarget inv then some fail
+      else if inv.all then some ⟨(compareAll E cfg o1 o2 github t t).ok, t, []⟩
+      else match inv.args with
+        | [arg] => some ⟨(compareCmd E cfg o1 o2 t arg).ok, t, []⟩
+        | _ => some fail
+    | .format =>
+      if !oneTarget inv then some fail
+      else if inv.all then let r := formatAll inv.check lint t; some ⟨r.ok, r.tree, []⟩
+      else if inv.args == [b!"-"] then some fail else none
+    | .renumber =>
+      if !oneTarget inv then some fail
+      else if inv.all then let r := renumberAll inv.check t; some ⟨r.ok, r.tree, []⟩
+      else if inv.args == [b!"-"] then some fail else none
+    | .copyright =>
+      match inv.version with
+      | none => some fail
+      | some v =>
+        if v.isEmpty || !versionOk then some fail
+        else let r := copyrightAll v inv.year t; some ⟨r.ok, r.tree, []⟩
+
 end Crs.Cli
